@@ -77,7 +77,9 @@ class _End:
         if self.closed:
             raise OSError(errno.EBADF, "Bad file descriptor")
 
-    def settimeout(self, *a):
+    def settimeout(self, t=None, *a):
+        self.timeout = t        # a timed send that finds the send buffer full writes what fits and raises socket.timeout
+        return
         pass
 
     def getpeername(self):
@@ -139,6 +141,18 @@ class _End:
         if self.closed:
             self.net.ev("send", self, b, "EBADF")
             raise OSError(errno.EBADF, "Bad file descriptor")
+        if getattr(self, "timeout", None) is not None and not (flags & _real_socket.MSG_DONTWAIT) and self.space is not None and self.side == "srv":
+            if len(b) > self.space:
+                part = b[: self.space]
+                self.space = 0
+                if part:
+                    self.sent += part
+                    if self.peer is not None and not self.peer.closed:
+                        self.peer.inbuf += part
+                    self.net.ev("send", self, part, None)
+                self.net.ev("send", self, b"", "timeout")
+                raise _real_socket.timeout("timed out")
+            self.space -= len(b)
         if (flags & _real_socket.MSG_DONTWAIT) and self.space is not None:
             # a non-blocking send takes what the send buffer has room for and then reports EAGAIN
             if len(b) > self.space:
